@@ -1657,6 +1657,9 @@ class Food(UnitConversions):
             bool: True if the current food's macronutrients are less than or equal to the other food's.
         """
 
+        # quantities with different units are never compared
+        assert self.units == other.units
+
         # Check if the current food object is a monthly list
         if self.is_list_monthly():
             # Validate the list
